@@ -92,7 +92,10 @@ def gen(tier, seed):
         # a unitless transmission times a flux density (either order): only for products, and not in metres (the specification
         # evaluates metre operands in nanometres, which would rescale a density)
         vus = rng.choice(((None, None), (None, None), (None, 'photlam'), ('photlam', None))) if (op == 'mul' and 'm' not in (u1, u2)) else (None, None)
-        if vus != (None, None):
+        if op in ('add', 'sub', 'div') and 'm' not in (u1, u2) and rng.random() < 0.25:
+            # two flux densities in the same flux unit: their sum and difference are densities, their quotient is a pure number
+            vus = rng.choice((('photlam', 'photlam'), ('wlam', 'wlam')))
+        if vus != (None, None) and op != 'div':
             fill = Fr(0)            # (a non-zero fill is a number in the result's own units: it cannot be the same density in two units)
         cases.append({'k': 'binop', 'w1': w1, 'v1': v1, 'w2': w2, 'v2': v2, 'u1': u1, 'u2': u2, 'op': op, 'how': how, 'fill': fill, 'vus': vus})
     return cases
@@ -247,6 +250,56 @@ def run(ctx):
                                   {'spectrum': sj, 'scalar': float(kk), 'error': err}, case=None)
         if sp.state_digest(s) != d0:
             ctx.violation({'kind': 'operand-modified', 'op': 'scalar'}, {'spectrum': sj}, case=None)
+        # the same values stored in a narrow type (counts read from a file as uint8 / int16, a boolean pass-band): element-wise
+        # arithmetic with a scalar or a vector is arithmetic on the VALUES, as it is when the other operand is a spectrum
+        vi = np.array([int(x * 4) for x in v])                        # quarter-integers x 4: 4..64
+        for dt in (np.uint8, np.int16, np.bool_):
+            arr = (vi > 20) if dt is np.bool_ else vi.astype(dt)
+            sn = lentil.radiometry.Spectrum(np.asarray(s.wave, dtype=float), arr, waveunit=u, valueunit=None)
+            sf_ = lentil.radiometry.Spectrum(np.asarray(s.wave, dtype=float), arr.astype(float), waveunit=u, valueunit=None)
+            for name, other in (('add', 200), ('multiply', 5), ('subtract', 100), ('multiply', 1000), ('add', True), ('power', -1), ('subtract', [70] * len(w))):
+                ctx.case(('narrow-values', name, np.dtype(dt).name, str(other)[:8], u))
+                if name == 'power' and dt is np.bool_:
+                    continue
+                try:
+                    rn, rf = getattr(sn, name)(other), getattr(sf_, name)(other)
+                    ok = np.allclose(np.asarray(rn.value, dtype=float), rf.value, rtol=1e-12, equal_nan=True)
+                    err = None
+                except Exception as ex:
+                    ok, err = False, repr(ex)[:160]
+                if not ok:
+                    ctx.violation({'kind': 'scalar-operand-depends-on-value-dtype', 'op': name, 'dtype': np.dtype(dt).kind},
+                                  {'values': arr.tolist(), 'other': other, 'error': err}, case=None)
+    # operands written in DIFFERENT flux units (the same physical spectrum in photlam and in wlam / flam): the sum, the difference
+    # and the quotient describe the same physical spectrum as with both operands in one unit, in either order (conversions: C14)
+    nmix = 0
+    for _ in range(40):
+        w1, v1 = phys_spectrum(rng)
+        w2, v2 = phys_spectrum(rng)
+        u1, u2 = rng.choice(('nm', 'um', 'angstrom')), rng.choice(('nm', 'um', 'angstrom'))
+        x1, x2 = rng.choice(('photlam', 'wlam', 'flam')), rng.choice(('photlam', 'wlam', 'flam'))
+        a = make_real(lentil, w1, v1, u1, 'photlam')
+        b = make_real(lentil, w2, v2, u2, 'photlam')
+        a.to(x1)
+        for op in ('add', 'subtract', 'divide'):
+            nmix += 1
+            ctx.case(('mixed-flux-units', op, u1, u2, x1, x2, str(w1), str(w2)))
+            bx = b.copy()
+            bx.to(x2)
+            bref = b.copy()
+            bref.to(x1)
+            try:
+                fv = 1.0 if op == 'divide' else 0.0
+                r, ref = getattr(a, op)(bx, fill_value=fv), getattr(a, op)(bref, fill_value=fv)
+                ok = r.valueunit == ref.valueunit and len(r.wave) == len(ref.wave) and np.allclose(r.wave, ref.wave, rtol=1e-12) and \
+                    np.allclose(r.value, ref.value, rtol=1e-9, atol=1e-12 * np.abs(ref.value).max())
+                ok = ok and (r.valueunit is None if op == 'divide' else r.valueunit == x1)
+                err = None
+            except Exception as ex:
+                ok, err = False, repr(ex)[:160]
+            if not ok:
+                ctx.violation({'kind': 'flux-unit-dependent', 'op': op, 'same_flux_unit': x1 == x2}, {'left': x1, 'right': x2, 'waveunits': [u1, u2], 'error': err}, case=None)
+    ctx.extra['mixed_flux_unit_cases'] = nmix
     # quadratic / cubic interpolation is outside the model: only the relational clauses (commutativity, independence of the unit
     # the operands are written in, operands untouched) are checked, on nested ranges whose ends are exact in every unit used
     nrel = 0
